@@ -300,3 +300,77 @@ func DiceProgram(r *fw.Rand) string {
 	}
 	return sb.String()
 }
+
+// StmtNest renders a random nest (depth ≤ 4) of every statement form with
+// break/continue/return at arbitrary positions; text-level, always syntactically valid.
+func StmtNest(r *fw.Rand, depth int, inLoop, inFunc bool) string {
+	expr := func() string {
+		return r.Pick([]string{"1", "0", "x", "x < 3", "x + 1", "d6 > 3", "[1,2]", "'s'", "f(1)", "x ? 1 : 2", "x || y", "x && y", "`a{x}`", "{'k':x}.k", "xs[0]", "2d6kh1", "null", "x ?? 2", "-x", "(x + 2) * 3"})
+	}
+	simple := func() string {
+		k := r.Intn(16)
+		switch {
+		case k < 3:
+			return r.Pick([]string{"x", "y", "t1"}) + " = " + expr()
+		case k == 3:
+			return "xs = [1,2,3]; xs[" + r.Pick([]string{"0", "1", "-1"}) + "] = " + expr()
+		case k == 4:
+			return "dd = {'k':1}; dd.k = " + expr()
+		case k == 5:
+			return "xs = [1,2,3]; xs[0:1] = [" + expr() + "]"
+		case k == 6:
+			return "a = b = " + expr()
+		case k == 7:
+			return "&cv = " + expr() + "; cv"
+		case k == 8 && inLoop:
+			return r.Pick([]string{"break", "continue"})
+		case k == 9 && inFunc:
+			return r.Pick([]string{"return " + expr(), "return"})
+		case k == 10:
+			return "return " + expr()
+		case k == 11:
+			return "this.z = " + expr()
+		case k == 12:
+			return "dd = {}; dd.k = dd['j'] = []"
+		case k == 13:
+			return "&cv.a = " + expr()
+		default:
+			return expr()
+		}
+	}
+	if depth <= 0 {
+		return simple()
+	}
+	body := func(il, ifn bool) string {
+		n := r.Intn(3)
+		var parts []string
+		for i := 0; i <= n; i++ {
+			parts = append(parts, StmtNest(r, depth-1, il, ifn))
+		}
+		return strings.Join(parts, r.Pick([]string{"; ", ";\n", " ;"}))
+	}
+	switch r.Intn(9) {
+	case 0, 1:
+		s := "if " + expr() + " { " + body(inLoop, inFunc) + " }"
+		if r.Bool() {
+			if r.Bool() {
+				s += " else if " + expr() + " { " + body(inLoop, inFunc) + " }"
+			}
+			s += " else { " + body(inLoop, inFunc) + " }"
+		}
+		return s
+	case 2, 3:
+		return "x = 0; while x < " + fmt.Sprint(1+r.Intn(3)) + " { x = x + 1; " + body(true, inFunc) + " }"
+	case 4:
+		name := r.Pick([]string{"f", "g", "h"})
+		return "func " + name + "(v) { " + body(false, true) + " }; " + name + "(" + expr() + ")"
+	case 5:
+		return "`a{% " + body(inLoop, inFunc) + " %}b{" + expr() + "}`"
+	case 6:
+		return "{ }" // empty dict
+	case 7:
+		return simple() + "; " + StmtNest(r, depth-1, inLoop, inFunc)
+	default:
+		return simple()
+	}
+}
